@@ -5,6 +5,7 @@ composite layouts (C14 two columns, C15 definitions table, C16 table) on stable
 vocabularies; plus clause-level checks that need no stability.
 -/
 import Driver.LayoutOracle
+import RosedVerif.Spec.Composite
 namespace RosedVerif.Driver
 open RosedVerif
 
@@ -25,6 +26,24 @@ def rectangular (ls : List (List Int)) : Option Nat :=
 def rawOpts (src : Options Int) (o : String) : Option (Options Tok) :=
   (if o == "=" then some src else parseOpts o).map tokOpts
 
+/-- Block.Join of the spec lines, inserted at the normalised cluster position -/
+def insertBlock (text : List Int) (p : Int) (lines : List (List Int)) (sep : List Int) (trailing : Bool) : List Int :=
+  let block := if lines.isEmpty then (if trailing then sep else []) else joinWith sep lines ++ (if trailing then sep else [])
+  Spec.insert cxA text p block
+
+def specTwoCol (text : List Int) (p : Int) (l r : List Int) (gap w : Int) (pct : Pct) (od : Options Int) : List Int :=
+  if l.isEmpty ∧ r.isEmpty then text
+  else
+    let lines := Spec.twoColumns tkA (toks (flatText l od.lineSep)) (toks (flatText r od.lineSep)) gap w pct
+    insertBlock text p (lines.map joinToks) od.lineSep (!od.noTrailing)
+
+def specDefTable (text : List Int) (p : Int) (d : List (List Int × List Int)) (w : Int) (od : Options Int) : List Int :=
+  if d.isEmpty then text
+  else
+    let paras := Spec.defTable tkA (d.map fun x => (toks x.1, toks (flatText x.2 od.lineSep))) w
+    let body := joinWith od.paraSep (paras.map fun ls => joinWith od.lineSep (ls.map joinToks))
+    Spec.insert cxA text p (body ++ (if !od.noTrailing then od.lineSep else []))
+
 def compositeStep (pid : String) (a : List String) (src res : Obs) : String :=
   match src, res with
   | .ed text so _ _, .ed out _ _ _ =>
@@ -35,7 +54,11 @@ def compositeStep (pid : String) (a : List String) (src res : Obs) : String :=
         if !stableDom [text, l, r] [od.lineSep] then "skip:unstable"
         else
           match (Editor.root (toks text) (tokOpts od)).insertTwoColumnsOpts cxB p (toks l) (toks r) gap w pct ((rawOpts so o).getD (tokOpts od)) with
-          | .ok e => if flat e.text == out then "ok" else s!"fail:C14 differs from the cluster-level layout; expected {showText (flat e.text)}"
+          | .ok e =>
+            if flat e.text != out then s!"fail:C14 differs from the cluster-level layout; expected {showText (flat e.text)}"
+            else if specTwoCol text p l r gap w pct od != out then
+              s!"fail:C14 is not the aligned juxtaposition of the two wrapped texts; expected {showText (specTwoCol text p l r gap w pct od)}"
+            else "ok"
           | .error _ => "fail:C14 cluster-level model is not total here"
       | _, _, _, _, _, _, _ => "skip:parse"
     | ["deftable", _, p, d, w, o] =>
@@ -44,7 +67,13 @@ def compositeStep (pid : String) (a : List String) (src res : Obs) : String :=
         if !stableDom ([text] ++ d.flatMap fun x => [x.1, x.2]) [od.lineSep, od.paraSep] then "skip:unstable"
         else
           match (Editor.root (toks text) (tokOpts od)).insertDefTableOpts cxB p (d.map fun x => (toks x.1, toks x.2)) w ((rawOpts so o).getD (tokOpts od)) with
-          | .ok e => if flat e.text == out then "ok" else s!"fail:C15 differs from the cluster-level layout; expected {showText (flat e.text)}"
+          | .ok e =>
+            let blank := d.any fun x => !x.2.isEmpty && (toks (flatText x.2 od.lineSep)).all tkA.ws
+            if flat e.text != out then s!"fail:C15 differs from the cluster-level layout; expected {showText (flat e.text)}"
+            else if specDefTable text p d w od != out then
+              (if blank then "fail:C15 a definition that consists of whitespace only is rendered without the '- ' marker"
+               else s!"fail:C15 is not the specified definitions layout; expected {showText (specDefTable text p d w od)}")
+            else "ok"
           | .error _ => "fail:C15 cluster-level model is not total here"
       | _, _, _, _ => "skip:parse"
     | ["table", _, p, d, w, o] =>
